@@ -173,7 +173,7 @@ def shrink(prop, case, driver, pred):
     return cur
 
 
-def run_check(prop, tier, seed, replay=None, jobs=None, n_cases=None):
+def run_check(prop, tier, seed, replay=None, jobs=None, n_cases=None, write_evidence=True):
     t0 = time.time()
     jobs = jobs or (4 if tier == 'quick' else 14)
     out_lines = []
@@ -259,7 +259,7 @@ def run_check(prop, tier, seed, replay=None, jobs=None, n_cases=None):
              if f.get('property') == prop.id and f.get('status') == 'open']
     exit_code = 0
     nviol = 0
-    replay_dir = os.path.join(engine.VERIF, 'replays')
+    replay_dir = os.environ.get('VERIF_REPLAY_DIR') or os.path.join(engine.VERIF, 'replays')
 
     def report(kind, origin, payload, text, suffix=''):
         nonlocal exit_code, nviol
@@ -338,7 +338,7 @@ def run_check(prop, tier, seed, replay=None, jobs=None, n_cases=None):
         }, **prop.extra_evidence()),
         'assumptions': list(prop.trusted),
     }
-    if not replay:
+    if not replay and write_evidence:
         engine.write_json(os.path.join(engine.VERIF, 'evidence', prop.id + '.json'), ev)
     if driver:
         driver.close()
